@@ -269,6 +269,10 @@ func c20CRSetup(k connCfg, variant string) func(c *fw.Ctx, name string) explore.
 		return func(w *vs.World) func(bool) {
 			p := vpipe.New()
 			p.Window = 1
+			if variant == "transport-close-fails" {
+				p.Window = 0
+				p.CloseErr = vpipe.ErrTransport // e.g. TLS: close_notify could not be written
+			}
 			var live []string
 			var ended bool
 			var endErr error
@@ -291,15 +295,26 @@ func c20CRSetup(k connCfg, variant string) func(c *fw.Ctx, name string) explore.
 				}
 				w.GoHarness("peer", false, func() {
 					vs.BlockOn(unsafe.Pointer(&gate), "wait-closereads", func() bool { return ncr == crs }, func() {})
+					if variant == "transport-close-fails" {
+						return
+					}
 					p.Send(peerData(k, frame.OpBinary, true, fill(0xEE, 3)))
 					if variant == "slow-handshake" {
 						vtime.Sleep(3 * time.Second)
 						p.SetWindow(0)
 					}
+					if variant == "stall-in-discard" {
+						// the handshake's Close frame gets out; the peer answers with the
+						// beginning of a data frame and goes silent inside its payload
+						p.SetWindow(0)
+						p.WaitOut("close-frame", func(out []byte) bool { _, ok := firstClose(out); return ok })
+						fr := peerData(k, frame.OpBinary, true, fill(0xEF, 10))
+						p.Send(fr[:len(fr)-7])
+					}
 				})
 				w.GoHarness("closer", true, func() {
 					vs.BlockOn(unsafe.Pointer(&gate), "wait-closereads", func() bool { return ncr == crs }, func() {})
-					if variant == "slow-handshake" {
+					if variant == "slow-handshake" || variant == "stall-in-discard" {
 						// let the CloseRead goroutine start its close handshake first
 						p.WaitOut("close-begun", func(out []byte) bool { return len(out) > 0 })
 						endErr = conn.Close(websocket.StatusNormalClosure, "")
@@ -402,7 +417,7 @@ func c20Scenarios(tier string) []scenario {
 		}
 	}
 	for _, k := range []connCfg{{Client: false}, {Client: true}} {
-		for _, v := range []string{"two-closeread", "slow-handshake"} {
+		for _, v := range []string{"two-closeread", "slow-handshake", "stall-in-discard", "transport-close-fails"} {
 			pv := 2
 			if tier == "thorough" {
 				pv = 3
